@@ -12,7 +12,9 @@ fn doc_line(rng: &mut Rng, numbers: &[u64]) -> String {
         7 => gen::simple_statement(rng), // unnumbered
         8 => String::new(),
         9 => format!("{} {}", n, gen::token_soup(rng)),
-        10 => format!("{} {}", n, rng.pick(&["PRINT \"unterminated", "X = 1.2.3", "é", "PRINT 1 % 2", "A$ = \"日本", "PRINT 1 + 😀"])),
+        10 => format!("{} {}", n, rng.pick(&["PRINT \"unterminated", "X = 1.2.3", "é", "PRINT 1 % 2", "A$ = \"日本", "PRINT 1 + 😀",
+            // an illegal character of every UTF-8 length class and lead byte (the error range covers exactly that character)
+            "PRINT \u{e01}", "\u{905} = 1", "PRINT 1 \u{f00} 2", "X = \u{800}", "PRINT \u{fff}5", "\u{80}", "PRINT \u{7ff}", "PRINT \u{1000}", "PRINT \u{ffff}", "PRINT \u{10000}", "PRINT \u{10ffff} + 1", "PRINT \u{a3}5"])),
         11 => format!("{} REM {}", n, rng.pick(&["café", "日本語", "😀 emoji", "plain", "\u{2028}sep"])),
         12 => format!("{} PRINT \"{}\" + 1", n, rng.pick(&["é", "😀", "ab", "日本"])),
         13 => format!("{}{} {}", rng.pick(&[" ", "   ", "\t", "\u{a0}", "\u{3000}", " \u{a0}", "\u{2003}\u{a0} "]), n, gen::simple_statement(rng)),
@@ -158,6 +160,9 @@ pub fn c05_cases(rng: &mut Rng, tier: &str) -> (Vec<Case>, bool) {
         ] {
             cases.push(Case { ops: vec![analyze_op(&d)], checks: vec!["analysis-wellformed 0".into()], tag: "very-deep".into(), nontrivial: true, show: format!("{}… ({} levels)", d.chars().take(30).collect::<String>(), n) });
         }
+    }
+    for d in [format!("10 PRINT 1{}", ":".repeat(400_000)), format!("10 {}PRINT 1\n20 PRINT 2", ": ".repeat(200_000)), format!("10 IF 1 THEN {}PRINT 1", ":".repeat(100_000)), format!("10 PRINT {}", vec!["1"; 100_000].join(" OR ")), format!("10 X = {}", vec!["1"; 100_000].join(" + "))] {
+        cases.push(Case { ops: vec![analyze_op(&d)], checks: vec!["analysis-wellformed 0".into()], tag: "impl-only:flat-run".into(), nontrivial: true, show: format!("{}… ({} bytes)", d.chars().take(24).collect::<String>(), d.len()) });
     }
     for d in arity_documents() {
         cases.push(Case { ops: vec![analyze_op(&d)], checks: vec!["analysis-wellformed 0".into()], tag: "function-arity".into(), nontrivial: true, show: d.replace('\n', " | ") });
@@ -399,6 +404,32 @@ pub fn c06_cases(rng: &mut Rng, tier: &str) -> (Vec<Case>, bool) {
                 w.state();
                 let b = w.last();
                 cases.push(Case { ops: w.ops, checks: vec![format!("agree-sound {} {}-{}", ai, a0, b)], tag: "function-arity".into(), nontrivial: true, show: text.replace('\n', " | ") });
+            }
+        }
+    }
+    // IF with zero to three ELSE clauses (one more than the grammar has), for a true and a false condition, with clauses that
+    // fall through, jump, or swallow the rest of the line
+    for cond in ["X", "1", "X = 0"] {
+        for then in ["PRINT 1", "30", "Y = 1", "IF 1 THEN PRINT 5"] {
+            for elses in [&[][..], &["PRINT 2"][..], &["PRINT 2", "PRINT 3"][..], &["Y = 2", "30"][..], &["30", "PRINT 3"][..], &["PRINT 2", "PRINT 3", "PRINT 4"][..], &["REM r", "PRINT 3"][..]] {
+                let mut line = format!("20 IF {} THEN {}", cond, then);
+                for e in elses.iter() {
+                    line.push_str(&format!(" ELSE {}", e));
+                }
+                let text = format!("10 X = 0\n{}\n30 PRINT 4", line);
+                let mut w = Walk::new(false, false);
+                w.op(&analyze_op(&text));
+                let ai = w.last();
+                let a0 = w.ops.len();
+                for l in text.split('\n') {
+                    w.start(l);
+                }
+                w.start("RUN");
+                let mut nr = 0;
+                w.drive(&[], &mut nr, 40, false);
+                w.state();
+                let b = w.last();
+                cases.push(Case { ops: w.ops, checks: vec![format!("agree-sound {} {}-{}", ai, a0, b)], tag: "surplus-else".into(), nontrivial: true, show: text.replace('\n', " | ") });
             }
         }
     }
